@@ -42,7 +42,7 @@ func (e c18Ev) String() string {
 	return "delete(" + e.file + ")"
 }
 
-func c18Subsets(maxN int) [][]string {
+func c18Subsets(c18Candidates []string, maxN int) [][]string {
 	var out [][]string
 	n := len(c18Candidates)
 	for mask := 0; mask < 1<<uint(n); mask++ {
@@ -138,7 +138,18 @@ func c18Space(tier string) *core.Space {
 	if tier == "thorough" {
 		maxTree = 4
 	}
-	trees := c18Subsets(maxTree)
+	return c18SpaceOf("trees-x-requirer-x-module-x-form-x-separator-x-event", c18Candidates, c18Modules, c18Forms, maxTree)
+}
+
+// a module string that ends in ".lua": for require the dot is the module separator (x.lua is the module x/lua), for
+// dofile it is the file suffix. Every subset of the files either reading could mean.
+func c18SuffixSpace() *core.Space {
+	return c18SpaceOf("module-strings-ending-in-.lua", []string{"x.lua", "x/lua.lua", "x/lua/init.lua", "m/x.lua"}, []string{"x.lua", "m.x.lua"},
+		[]string{`require "%s"`, `require("%s")`}, 4)
+}
+
+func c18SpaceOf(spaceName string, c18Candidates, c18Modules, c18Forms []string, maxTree int) *core.Space {
+	trees := c18Subsets(c18Candidates, maxTree)
 	// events: none, or one create/delete of a candidate
 	type evChoice struct{ file string }
 	nEv := 1 + len(c18Candidates)
@@ -167,7 +178,7 @@ func c18Space(tier string) *core.Space {
 		return c
 	}
 	return &core.Space{
-		Name: "trees-x-requirer-x-module-x-form-x-separator-x-event", N: n, Chunk: 100, RecycleEvery: 30,
+		Name: spaceName, N: n, Chunk: 100, RecycleEvery: 30,
 		Describe: func(i int64) interface{} {
 			c := decode(i)
 			return map[string]interface{}{"files": c.tree, "requiring_file": c.req, "text": c.mainText(), "separator": c.sep, "events": fmt.Sprint(c.events)}
@@ -372,11 +383,11 @@ func init() {
 	core.Register(&core.Check{
 		ID:        "C18",
 		Technique: "bounded-exhaustive enumeration of directory trees x requiring file x module string x call form x separator x one create/delete event, on the real server; three-valued reference resolver plus cross-feature consistency",
-		Rule: "trees: every subset of <=3 (quick) / <=4 (thorough) of {x.lua, m/x.lua, n/x.lua, m/init.lua, m.lua, x.so}; requiring file at the root or in m/; module strings {x, m.x, m/x, n.x, m, m.init, q}; forms require \"s\", require(\"s\"), dofile(\"s.lua\"); separator . or /; then no event or one watched create/delete of a candidate. " +
+		Rule: "trees: every subset of <=3 (quick) / <=4 (thorough) of {x.lua, m/x.lua, n/x.lua, m/init.lua, m.lua, x.so}; requiring file at the root or in m/; module strings {x, m.x, m/x, n.x, m, m.init, q}; forms require \"s\", require(\"s\"), dofile(\"s.lua\"); separator . or /; then no event or one watched create/delete of a candidate; a second space: module strings ending in .lua (x.lua, m.x.lua; for require the dot separates modules) over every subset of {x.lua, x/lua.lua, x/lua/init.lua, m/x.lua}. " +
 			"Judged before and after the event: type 6 <=> definition on the string finds no file; definition, hover and the file the analysis loaded (definition of a member of the required module) name the same file; a module that exists at the documented path (relative to the root or the requiring file's directory, name.lua then name/init.lua) must resolve to a file with that trailing path; " +
 			"a module for which no file has that trailing path must be reported. states = judgements; non-trivial = cases that must resolve or carry an event",
 		Assumptions: []string{"fuzzy suffix matches are accepted as targets (don't-care zone of the mapping)", "module strings written with the other separator are not judged", "native .so modules are tolerated: neither resolution nor a diagnostic is required"},
 		Flavour:     "prod+overlay", QuickBudgetS: 200, ThoroughBudgetS: 1200,
-		Spaces:      func(tier string) []*core.Space { return []*core.Space{c18Space(tier)} },
+		Spaces: func(tier string) []*core.Space { return []*core.Space{c18Space(tier), c18SuffixSpace()} },
 	})
 }
